@@ -39,6 +39,11 @@ type c03Case struct {
 	LongHandler int  `json:"long_handler_ms,omitempty"`
 	HoldS       int  `json:"hold_s,omitempty"`
 	Legacy      bool `json:"legacy_timers,omitempty"`
+	// Echo: the handler writes every UPDATE back with WriteUpdate (from inside the callback).
+	// LHold0 / RHold0: the peer is configured WithHoldTime(0) / the remote's OPEN proposes hold time 0.
+	Echo   bool `json:"echo,omitempty"`
+	LHold0 bool `json:"local_hold_0,omitempty"`
+	RHold0 bool `json:"remote_hold_0,omitempty"`
 	Note        string `json:"note,omitempty"`
 }
 
@@ -106,9 +111,24 @@ func c03Run(cs c03Case, ch vrt.Chooser, trace bool) (*world.World, *vrt.Exec, *w
 	if cs.HoldS > 0 {
 		hold = cs.HoldS
 	}
+	if cs.LHold0 {
+		hold = 0
+	}
+	rhold := uint16(90)
+	if cs.RHold0 {
+		rhold = 0
+	}
 	s := &Sess{LocalAS: 65001, RemoteAS: 65002, Hold: hold, Inbound: cs.Inbound, Horizon: 20 * time.Second, Legacy: cs.Legacy,
 		Plugin: func(w *world.World) *world.Plugin {
 			plug = &world.Plugin{W: w, Peer: "P1", Marker: true, NoYield: ch == nil}
+			if cs.Echo {
+				plug.Handle = func(p *world.Plugin, s, n int, b []byte) *corebgp.Notification {
+					if err := p.Writers[s-1].WriteUpdate(append([]byte("ECHO"), b...)[:min(len(b)+4, 4077)]); err != nil {
+						p.W.Note("echo-error", err.Error())
+					}
+					return nil
+				}
+			}
 			if cs.LongHandler > 0 {
 				plug.Handle = func(p *world.Plugin, s, n int, b []byte) *corebgp.Notification {
 					if n == 1 {
@@ -136,7 +156,7 @@ func c03Run(cs c03Case, ch vrt.Chooser, trace bool) (*world.World, *vrt.Exec, *w
 		Script: func(w *world.World, r *world.Remote) {
 			rem = r
 			w.NW.Coalesce = cs.Coalesce
-			if !reach(r, stEstablished, 65002, 90) {
+			if !reach(r, stEstablished, 65002, rhold) {
 				return
 			}
 			if cs.LongHandler > 0 {
@@ -410,6 +430,14 @@ func c03Check(c *harness.Ctx) {
 			}
 		}
 	}
+	// WriteUpdate from inside the handler, also in sessions without timers (hold time 0 on either side)
+	for si, msgs := range c03Streams(3) {
+		for _, h := range [][2]bool{{false, false}, {true, false}, {false, true}} {
+			if !run(c03Case{Msgs: msgs, Chunk: []int{0, 7, 19}[si%3], Echo: true, LHold0: h[0], RHold0: h[1], Inbound: si%2 == 0}) {
+				return
+			}
+		}
+	}
 	// a handler call that outlasts the hold time while the remote is never silent
 	for _, bulk := range [][]int{{20, 23}, {3, 4077, -1, 0}} {
 		for _, legacy := range []bool{true, false} {
@@ -478,7 +506,7 @@ func c03Scn(cs c03Case, bound int) *Scn {
 func init() {
 	harness.Register(&harness.Check{
 		Property: "C03", Level: "exploration", NeedsConc: true, QuickS: 200, ThoroughS: 1200,
-		Rule:   "all message sequences of length <=3 (quick) / <=4 (thorough) over {KEEPALIVE, UPDATE with body 0,1,4,23,4077 bytes} x segmentations of the byte stream: fixed write sizes {1,2,3,5,7,18,19,20,4096}, every partition with <=2 cut points taken from {first 24/40 bytes, every message boundary +-{0,1,2,18,19,20}, last byte}, with and without read coalescing, both directions; handler returning a NOTIFICATION at the j-th UPDATE; each case is one run of the real FSM over the virtual wire; in addition all schedules within the delay bound (1 quick / 2 thorough) of reader, FSM and handler for the streams of <=2 small messages; plus the stream followed directly by FIN, bulk runs of 12-300 messages (body lengths cycling through 0..4077, KEEPALIVEs interleaved), a handler that takes virtual time while further messages arrive, and two peers receiving split-header streams at the same instant under all schedules within delay bound 2 / 3; all cases non-trivial and distinct",
+		Rule:   "all message sequences of length <=3 (quick) / <=4 (thorough) over {KEEPALIVE, UPDATE with body 0,1,4,23,4077 bytes} x segmentations of the byte stream: fixed write sizes {1,2,3,5,7,18,19,20,4096}, every partition with <=2 cut points taken from {first 24/40 bytes, every message boundary +-{0,1,2,18,19,20}, last byte}, with and without read coalescing, both directions; handler returning a NOTIFICATION at the j-th UPDATE; each case is one run of the real FSM over the virtual wire; in addition all schedules within the delay bound (1 quick / 2 thorough) of reader, FSM and handler for the streams of <=2 small messages; plus the stream followed directly by FIN, bulk runs of 12-300 messages (body lengths cycling through 0..4077, KEEPALIVEs interleaved), a handler that takes virtual time while further messages arrive, a handler that echoes every UPDATE with WriteUpdate (also with hold time 0 on either side), and two peers receiving split-header streams at the same instant under all schedules within delay bound 2 / 3; all cases non-trivial and distinct",
 		Assume: []string{"virtual network (A3): a Read returns the bytes of one write (or of all pending writes with coalescing)", "handlers return in zero time"},
 		Run:    c03Check,
 		Replay: func(c *harness.Ctx, raw json.RawMessage) {
